@@ -279,7 +279,7 @@ def run(tier, seed):
         "level": "model_checking",
         "rule": "(a) every max_time cut k in 0..makespan+1 of every 3-task workflow (4 kinds, works {1,2}) x {POOL2,DED}, of the FAC family and of nested parent/child(/grand-child) "
         "products: returns, no step at/after max_time, SUCCESS iff all FINISHED, FAILURE only at max_time; (b) feasible family: all 3-task workflows x works x layouts satisfying the "
-        "precondition (own worker per task when FF/SF links occur) x task rules, all absence answers (project, each worker) up to H with <= D non-default answers, "
+        "precondition (own worker per task when FF/SF links occur) x task rules, automatic tasks whose component needs a placement while no worker is free, restarts with the states reset at step 1..3, and keyword-less simulate() after every history of <= 2 operations (simulate, simulate with absence, insert, remove, backward, initialize) on another or the same project, all absence answers (project, each worker) up to H with <= D non-default answers, "
         "max_time = sequential work bound + H absences: must be SUCCESS; (c) infeasible family: one non-automatic task nobody can serve (skill 0 / missing / below tolerance / "
         "team not targeting / fixed-ID list) x max_time in {0,1,5,12}: never SUCCESS, stops at max_time. non-trivial = distinct (model, cut k giving FAILURE) + distinct feasible (model, absence pattern) + infeasible models",
         "bounds": {"H": H, "D": D, "feasible_models": len(fe), "infeasible": len(inf), "cut_models": len(cuts)},
